@@ -29,6 +29,7 @@ import (
 	"time"
 
 	"github.com/keybase/go-crypto/brainpool"
+	"github.com/wokdav/gopki/generator/config"
 	"github.com/wokdav/gopki/generator/db"
 	"github.com/wokdav/gopki/generator/db/filesystem"
 	"github.com/wokdav/gopki/logging"
@@ -44,6 +45,9 @@ type entity struct {
 
 // a dotted object identifier with an arc of at least 2^31 (ten digits and more; 2147483648 is the smallest)
 var bigArc = regexp.MustCompile(`[0-9]\.(2147483(6(4[89]|[5-9][0-9])|[7-9][0-9]{2})|21474[89][0-9]{5}|2147[5-9][0-9]{6}|214[89][0-9]{7}|21[5-9][0-9]{8}|2[2-9][0-9]{9}|[3-9][0-9]{9}|[0-9]{11,})([^0-9]|$)`)
+
+// the hierarchy is built through the library calls AddProfile / AddAndSign on an empty database instead of from files
+var apiMode bool
 
 type rawCert struct {
 	TBS    asn1.RawValue
@@ -269,6 +273,9 @@ func runHierarchy(tag string, ents []entity, profiles []*Profile) int {
 	t0 := time.Now().Add(-time.Hour)
 	put := func(name, text string) { m[name] = &fstest.MapFile{Data: []byte(text), Mode: 0644, ModTime: t0} }
 	for i, p := range profiles {
+		if apiMode {
+			break
+		}
 		if i%2 == 0 {
 			put("profiles/"+p.Name+".yaml", yamlOf(p.tree()))
 		} else {
@@ -276,6 +283,9 @@ func runHierarchy(tag string, ents []entity, profiles []*Profile) int {
 		}
 	}
 	for _, e := range ents {
+		if apiMode {
+			break
+		}
 		if e.json {
 			put(e.name+".json", jsonText(e.cfg.tree()))
 		} else {
@@ -304,6 +314,49 @@ func runHierarchy(tag string, ents []entity, profiles []*Profile) int {
 			status = "open: " + err.Error()
 			return
 		}
+		if apiMode {
+			// the library path: profiles and entities are handed to an empty database one by one (AddProfile, AddAndSign)
+			for _, p := range profiles {
+				v, err := config.ParseConfig(strings.NewReader(yamlOf(p.tree())))
+				if err != nil {
+					status = "update: profile does not parse: " + err.Error()
+					return
+				}
+				var pp config.CertificateProfile
+				switch t := v.(type) {
+				case *config.CertificateProfile:
+					pp = *t
+				case config.CertificateProfile:
+					pp = t
+				}
+				if err := d.AddProfile(pp); err != nil {
+					status = "update: " + err.Error()
+					return
+				}
+			}
+			for _, e := range ents {
+				v, err := config.ParseConfig(strings.NewReader(yamlOf(e.cfg.tree())))
+				if err != nil {
+					status = "update: '" + e.name + "' does not parse: " + err.Error()
+					return
+				}
+				cc, ok := v.(*config.CertificateContent)
+				if !ok {
+					if c2, ok2 := v.(config.CertificateContent); ok2 {
+						cc = &c2
+					} else {
+						status = "update: '" + e.name + "' is not a certificate configuration"
+						return
+					}
+				}
+				cc.Alias = e.name
+				if _, err := db.AddAndSign(d, *cc, false); err != nil {
+					status = "update: '" + e.name + "': " + err.Error()
+					return
+				}
+			}
+			return
+		}
 		plan, err := db.PlanBulkUpdate(d, db.UpdateMissing|db.UpdateChanged)
 		if err != nil {
 			status = "plan: " + err.Error()
@@ -313,7 +366,7 @@ func runHierarchy(tag string, ents []entity, profiles []*Profile) int {
 			status = "update: " + err.Error()
 		}
 	}()
-	if status == "ok" {
+	if status == "ok" && !apiMode {
 		// C10 at the byte level: the same flags again, on what the run left behind, find nothing to do - whatever the
 		// configurations hold (manipulations, raw extensions, unique ids, profiles, imported issuers)
 		func() {
